@@ -7,9 +7,10 @@ CONSTANTS
   Idxs = {}
   MaxObs = 2
   MaxDepth = 0
+  WithClone = TRUE
 INVARIANTS
   OutcomeLegal EndpointsExist ListedByBoth NoDangling TablesMatchRef
-  OTypeOK OneToOne BackAgain ForgetDeleted MapsMatchRef CopyIndependent
+  OTypeOK OneToOne BackAgain ForgetDeleted MapsMatchRef CopyIndependent SidesIndependent
   ViewLists ViewNodeTable ViewPairs ViewAbsent ViewObs AssocEndpoints
 POSTCONDITION TraceAccepted
 CHECK_DEADLOCK FALSE
